@@ -3,3 +3,5 @@
 mod c07_params;
 #[cfg(kani)]
 mod c20_format;
+#[cfg(kani)]
+mod c01_router;
